@@ -19,6 +19,13 @@ Fixpoint prefixb (a b : list N) : bool :=
   | _, [] => false
   end.
 
+(* the model says a loop is about to call SendError but the history ended
+   (after quiescence) without that call *)
+Definition pending_failure (s : st) : bool :=
+  match sph (sn s) with SFail => true | _ => false end ||
+  match rph (rc s) with RFail => true | _ => false end ||
+  match lph (rc s) with LFail _ => true | _ => false end.
+
 Definition diag (maps : list (statemap * N)) (k : consts) (cs : case) : N :=
   let '(i, srv, rq, ls, (oh, os, op, ow, oe)) := cs in
   match nth_error maps i with
@@ -33,6 +40,7 @@ Definition diag (maps : list (statemap * N)) (k : consts) (cs : case) : N :=
       else if negb (list_eqb N.eqb (plog (lg s)) op) then 3
       else if negb (prefixb ow (map m_id (wire_log (lg s)))) then 4
       else if negb (Bool.eqb (err (fl s)) oe) then 5
+      else if pending_failure s then 6
       else 0
     end
   end.
